@@ -9,6 +9,9 @@ Streams (model `Wpull.HttpWire` vs the real code in the wpull tree under test):
            is logged, the model replays the exchange from the byte stream + the logged
            read sizes and must make the same calls and end in the same
            (status, fields, body, error class, consumed, closed, notified)
+  session  also with the client WIRED BY THE APPLICATION (argv -> AppArgumentParser -> Builder ->
+           NetworkSetupTask + ClientSetupTask; expectations follow from the options on the command
+           line) and through WebClient / WebSession with duration_timeout None / 30 / ...
   leave    the REAL Client + ConnectionPool with sessions that are not completed (header only,
            left by exception, aborted) while the rest of the response is still on its way
   timeout  ONE Connection(timeout=...) object through stalls (read timeout), closes and
@@ -446,13 +449,102 @@ def gen_sequence(rng, opts=(True, False)):
     return exs
 
 
-def check_sequence(ctx, exs, results, where='Session', opts=(True, False)):
-    case = {'stream': 'session', 'opts': list(opts),
+APP_ARGVS = [[], ['--no-http-keep-alive'], ['--ignore-length'], ['--no-http-keep-alive', '--ignore-length'],
+             ['--http-compression'], ['--no-http-keep-alive', '--http-compression', '--timeout', '30'],
+             ['--read-timeout', '60', '--session-timeout', '120'], ['--no-http-keep-alive', '--no-cookies', '--tries', '2']]
+
+
+def add_truncations(rng, exs, opts):
+    """insert exchanges whose length-delimited response is cut short by the peer"""
+    out = []
+    for e in exs:
+        m = e['msg']
+        if m.framing == 'length' and len(m.framed) > 1 and m.coding is None and rng.random() < 0.5:
+            cut = len(m.head) + rng.randrange(0, len(m.framed))
+            data = m.message[:cut]
+            out.append(dict(e, segs=fakenet.segment(data, [len(m.head)] if cut > len(m.head) and rng.random() < 0.5 else []), eof=True,
+                            surplus=b'', truncated=True))
+        out.append(e)
+    for k, e in enumerate(out):
+        e['path'] = '/p%d' % k
+    return out
+
+
+def fixed_app_exchanges(opts=(True, False)):
+    ok = _mk(b'HTTP/1.1 200 OK\r\nContent-Type: text/plain\r\nContent-Length: 20\r\n\r\n', b'twenty bytes of body')
+    five = _mk(b'HTTP/1.1 200 OK\r\nContent-Length: 5\r\n\r\n', b'hello')
+    chunked = _mk(b'HTTP/1.1 200 OK\r\nTransfer-Encoding: chunked\r\n\r\n', b'5;x\r\nhello\r\n0\r\nT: 1\r\n\r\n', b'hello', framing='chunked')
+    import gzip
+    gz = gzip.compress(b'compressed payload')
+    coded = _mk(b'HTTP/1.1 200 OK\r\nContent-Encoding: gzip\r\nTransfer-Encoding: chunked\r\n\r\n',
+                b'%x\r\n' % len(gz) + gz + b'\r\n0\r\n\r\n', gz, framing='chunked')
+    coded.coding = 'gzip'
+    mk = lambda m, segs, eof, **kw: dict({'segs': segs, 'eof': eof, 'method': 'GET', 'version': 'HTTP/1.1', 'msg': m, 'surplus': b'',
+                                          'marker': b''}, **kw)
+    exs = [mk(ok, [ok.message], False),
+           mk(ok, [ok.head, b'only8byt'], True, truncated=True),
+           mk(five, [five.head, b'hello', b'SURPLUS'], True, surplus=b'SURPLUS'),
+           mk(chunked, [chunked.message], False),
+           mk(coded, [coded.head, coded.framed], False),
+           mk(ok, [ok.message], False)]
+    for k, e in enumerate(exs):
+        e['path'] = '/p%d' % k
+        if H.relaxed_by_options(e['msg'], opts):
+            e['eof'] = True         # --ignore-length: the peer's close delimits a Content-Length response
+    return exs
+
+
+def app_sequences(rng, n):
+    """(exchanges, options, wiring): the client is built by the application's own set-up tasks from
+    a command line; what is expected follows from the options on that command line"""
+    out = []
+    for argv in APP_ARGVS:
+        out.append((fixed_app_exchanges(H.options_of_argv(argv)), None, {'argv': ['http://h/'] + argv}))
+    for i in range(n):
+        argv = ['http://h/'] + APP_ARGVS[i % len(APP_ARGVS)]
+        opts = H.options_of_argv(argv)
+        out.append((add_truncations(rng, gen_sequence(rng, opts), opts), None, {'argv': argv}))
+    return out
+
+
+def web_sequences(rng, n):
+    """the same exchange families through WebClient / WebSession, with and without a time limit"""
+    out = []
+    for dt in (None, 30, 1, 120.5):
+        exs = [e for e in fixed_app_exchanges() if not e.get('truncated')]
+        out.append((exs, (True, False), {'web': True, 'duration_timeout': dt}))
+    for i in range(n):
+        exs = [e for e in gen_sequence(rng) if not (300 <= e['msg'].code < 400 or e['msg'].code == 401)]
+        for k, e in enumerate(exs):
+            e['path'] = '/p%d' % k
+        if exs:
+            wiring = {'web': True, 'duration_timeout': rng.choice([None, 30, 30, 600])}
+            if i % 3 == 0:
+                wiring['argv'] = ['http://h/'] + rng.choice(APP_ARGVS[:2] + APP_ARGVS[4:])
+            out.append((exs, (True, False), wiring))
+    return out
+
+
+def check_sequence(ctx, exs, results, where='Session', opts=(True, False), wiring=None):
+    case = {'stream': 'session', 'opts': list(opts), 'wiring': wiring,
             'exchanges': [{'segs': e['segs'], 'eof': e['eof'], 'method': e['method'], 'version': e['version'],
                            'path': e['path'], 'msg': e['msg'].case(), 'surplus': e['surplus'],
-                           'file': e.get('file', 'fresh'), 'file_prefix': e.get('file_prefix', b'')} for e in exs]}
+                           'file': e.get('file', 'fresh'), 'file_prefix': e.get('file_prefix', b''),
+                           'truncated': bool(e.get('truncated'))} for e in exs]}
+    how = ''
+    if wiring:
+        how = ' [client wired by the application from argv %r%s]' % (wiring.get('argv'), ', through WebSession with duration_timeout=%r'
+                                                                     % wiring.get('duration_timeout') if wiring.get('web') else '')
     for k, (e, r) in enumerate(zip(exs, results)):
         m, x = e['msg'], r['x']
+        if e.get('truncated'):
+            # a length-delimited response the peer cut short: an error - unless --ignore-length was
+            # given, which is the one option that turns Content-Length framing into read-until-close
+            if x.outcome == 'ok' and not H.relaxed_by_options(m, opts):
+                ctx.fail('truncation-accepted', where, case, 'exchange %d: the peer sent %d of %d bytes and closed; reported as a successful '
+                         'download of %d bytes%s' % (k, len(b''.join(e['segs'])), len(m.message), len(x.body), how))
+                return
+            continue
         if len(r['requests']) != 1:
             ctx.fail('request-count', where, case, 'exchange %d: %d requests reached the server' % (k, len(r['requests'])))
             return
@@ -485,8 +577,8 @@ def check_sequence(ctx, exs, results, where='Session', opts=(True, False)):
             sent = m.message + e['surplus']
         if x.status[1] != m.code or (want is not None and x.body != want):
             kind = 'next-response-not-from-first-byte' if k > 0 and exs[k - 1]['surplus'] else 'wrong-body'
-            ctx.fail(kind, where, case, 'exchange %d: status %r body %r.. but the server sent %d / %r..'
-                     % (k, x.status, x.body[:40], m.code, (want or b'')[:40]))
+            ctx.fail(kind, where, case, 'exchange %d: status %r body %r.. but the server sent %d / %r..%s'
+                     % (k, x.status, x.body[:40], m.code, (want or b'')[:40], how))
             return
         if b''.join(x.notified) != sent:
             ctx.fail('notified-not-message', where, case, 'exchange %d: response data events are not the message bytes' % k)
@@ -498,10 +590,16 @@ def stream_session(ctx, seqs):
     lines, metas = [], []
     flines, fmetas = [], []
     for item in seqs:
-        exs, opts = item if isinstance(item, tuple) else (item, (True, False))
+        wiring = None
+        if isinstance(item, tuple) and len(item) == 3:
+            exs, opts, wiring = item
+        else:
+            exs, opts = item if isinstance(item, tuple) else (item, (True, False))
+        if wiring and wiring.get('argv') is not None:
+            opts = H.options_of_argv(wiring['argv'])      # what the documented options mean, not what the app built
         opts = tuple(opts)
-        results, conns = H.real_session_sequence(exs, keep_alive=opts[0], ignore_length=opts[1])
-        check_sequence(ctx, exs, results, opts=opts)
+        results, conns = H.real_session_sequence(exs, keep_alive=opts[0], ignore_length=opts[1], wiring=wiring)
+        check_sequence(ctx, exs, results, opts=opts, wiring=wiring)
         toks = []
         for e, r in zip(exs, results):
             x = r['x']
@@ -510,7 +608,7 @@ def stream_session(ctx, seqs):
                      '-' if not H.sched_of(x.calls) else '.'.join('%x' % s for s in H.sched_of(x.calls)),
                      ','.join(('o' + enc(v)) if k == 'ok' else ('e' + v) for k, v in x.declog) or '~']
         lines.append('http session %s %s ' % ('T' if opts[0] else 'F', 'T' if opts[1] else 'F') + ' '.join(toks))
-        metas.append((exs, results, opts))
+        metas.append((exs, results, opts, wiring))
         for e, r in zip(exs, results):
             fi = getattr(r['x'], 'fileinfo', None)
             if fi is not None and r['x'].outcome == 'ok' and len(fi['before']) + len(r['x'].body) <= 12000:
@@ -520,7 +618,7 @@ def stream_session(ctx, seqs):
         if rep != real:
             ctx.disagree('file', {'file': e.get('file'), 'prefix': e.get('file_prefix', b'')}, rep[:400], real[:400])
     replies = ctx.model.ask(lines)
-    for (exs, results, opts), rep in zip(metas, replies):
+    for (exs, results, opts, wiring), rep in zip(metas, replies):
         parts = rep.split(' || ') if rep != '~' else []
         real_parts = []
         model_parts = []
@@ -532,10 +630,11 @@ def stream_session(ctx, seqs):
             real_parts.append('%s:%s' % (r['conn'], g))
         ctx.case(('session', tuple((tuple(e['segs']), e['eof'], e['method']) for e in exs), opts),
                  tags=['session:len=%d' % len(exs), 'session:opts=%s%s' % ('ka' if opts[0] else 'noka', '+il' if opts[1] else ''),
-                       'session:file=' + '/'.join(sorted({e.get('file', 'fresh') for e in exs}))]
+                       'session:file=' + '/'.join(sorted({e.get('file', 'fresh') for e in exs})),
+                       'session:wiring=' + ('app' if wiring and wiring.get('argv') is not None else 'direct') + ('+web' if wiring and wiring.get('web') else '')]
                  + (['session:surplus'] if any(e['surplus'] for e in exs) else []))
         if len(parts) != len(results) or real_parts != model_parts:
-            ctx.disagree('session', {'opts': list(opts),
+            ctx.disagree('session', {'opts': list(opts), 'wiring': wiring,
                                      'exchanges': [{'segs': e['segs'], 'eof': e['eof'], 'method': e['method']} for e in exs]},
                          [p[:600] for p in model_parts], [p[:600] for p in real_parts])
     if metas:
@@ -773,7 +872,7 @@ def _replay(ctx, case, kind=None, where=None):
             e = dict(e)
             e['msg'] = H.Msg.from_case(e['msg'])
             exs.append(e)
-        stream_session(ctx, [(exs, tuple(case.get('opts', (True, False))))])
+        stream_session(ctx, [(exs, tuple(case.get('opts', (True, False))), case.get('wiring'))])
     else:
         raise Infra('unknown replay stream %r' % s)
 
@@ -980,6 +1079,8 @@ def _run(ctx, pid='C08'):
         opts = H.OPTS[1 + (i // 2) % 3] if i % 2 else (True, False)      # half default, the rest spread over the other three
         seqs.append((gen_sequence(srng, opts), opts))
     stream_session(ctx, seqs)
+    wrng = ctx.subrng('wiring')
+    stream_session(ctx, app_sequences(wrng, ctx.scale(40, 600)) + web_sequences(wrng, ctx.scale(40, 600)))
     lrng = ctx.subrng('leave')
     stream_leave(ctx, fixed_leave_sequences() + [gen_leave_sequence(lrng) for _ in range(ctx.scale(100, 1500))])
     stream_timeout(ctx, timeout_cases())
